@@ -318,6 +318,24 @@ class Explorer:
                 pe = ("ci", el["ci"])
             elif "ci" in el:
                 pe = ("idx",)
+            elif "sub" in el:
+                # slice pattern `[a, b, rest @ ..]`: rest is base[from..] / base[from..len-to] / base[from..to]
+                if cur_val is not None:
+                    basev = cur_val
+                elif root[0] == "D" and not path:
+                    basev = SYM(root[1])
+                else:
+                    basev = ("ref", root, path)
+                frm, to = el["sub"]
+                USZ = "usize"
+                if el.get("fe") and to == 0:
+                    rng = AGG("std::ops::RangeFrom", "RangeFrom", (C(frm, USZ),))
+                elif el.get("fe"):
+                    rng = AGG("std::ops::Range", "Range", (C(frm, USZ), self.binop(st, "Sub", SYM(self.cap(("len", basev))), C(to, USZ))))
+                else:
+                    rng = AGG("std::ops::Range", "Range", (C(frm, USZ), C(to, USZ)))
+                cur_val = SYM(self.cap(("call", "std::slice::index::<impl std::ops::Index<I> for [T]>::index", (basev, rng))))
+                continue
             else:
                 pe = ("other",)
             if cur_val is not None:
@@ -544,6 +562,9 @@ class Explorer:
         if k == "ref" or k == "rawptr":
             r = self.resolve_place(st, fr, rv["place"])
             if r[0] == "val":
+                v = r[1]
+                if v[0] == "sym" and v[1][0] == "call" and v[1][1].endswith("::index"):
+                    return v        # a reference to a sub-slice is represented by the slice term itself
                 return SYM(("refval", r[1]))
             return ("ref", r[1], r[2])
         if k == "agg":
